@@ -11,3 +11,4 @@ CONSTANTS
   MaxVals = 2
   Tbc = TRUE
   ViewHist = 2
+  EmitAll = TRUE
